@@ -34,7 +34,7 @@ def parse(path):
             funcs[cur["name"]] = cur
             continue
         if cur is None:
-            raise AsmUnsupported("instruction outside TEXT: " + line)
+            continue      # macro bodies etc. before the first TEXT: a routine that uses them meets an unknown mnemonic when run
         parts = line.split(None, 1)
         mn = parts[0]
         ops = [o.strip() for o in parts[1].split(",")] if len(parts) > 1 else []
